@@ -121,7 +121,7 @@ var undecided = map[string][]string{
 	"C03": {"termination and nil-safety of the sweep's list walks, Execute's success flag, the rectangle clipper's edge post-pass, offset join constructors (not under contract)"},
 	"C02": {"winding 0/1 beyond the sampled stand-in; orientation signs, >= 3 vertices and first != last (need cleanCollinear's ring postcondition and the sweep)", "reverse option applied consistently (call-site argument of buildPath)"},
 	"C04": {"owner correctness, containment within the parent, IsHole <=> negative orientation, same polygons as the flat result: beyond the sampled stand-in", "polygons that touch another polygon of the solution or are slivers (known finding F38); zero-area polygons (F39)"},
-	"C05": {"both containment clauses, Round's arc tolerance, the negative-delta mirror statement, doSquare / doRound geometry, offsetPoint's case analysis"},
+	"C05": {"both containment clauses, Round's arc tolerance and the negative-delta mirror statement beyond the sampled stand-in (star-shaped polygons, tolerance 3); doSquare / doRound geometry, offsetPoint's case analysis; multiple groups, custom miter limits and arc tolerances"},
 	"C10": {"end caps (known finding F12), containment clauses, Joined loops, single-point circle"},
 	"C06": {"winding-number clause and 'zero outside' beyond the bound (bounded exhaustive stand-in only)", "checkEdges / tidyEdgePair post-pass (not under contract); corner locations being sides is assumed"},
 	"C11": {"vertices on the input line, two-point segments kept, never closed up, coverage: beyond the bound (bounded exhaustive stand-in only)", "order of the output pieces"},
